@@ -190,6 +190,19 @@ def build():
     one(r"if\s+let\s+Some\(ce\)\s*=\s*cache\.cache\.get\(&cache_key\)\.await\s*\{\s*return\s+ce;\s*\}\s*let\s+res\s*=\s*self\.check_sig\(sig,\s*signer_name,\s*key,\s*key_name,\s*key_tag\);\s*cache\.cache\.insert\(cache_key,\s*res\)\.await;\s*res\s*$", cc, "cache lookup / fill")
     one(r"struct\s+SigKey\(Vec<u8>,\s*Vec<u8>,\s*Vec<u8>\);", grp, "SigKey shape")
     defs.append(("sig_cache_key_is_signed_data_sig_key", "bool", "true"))
+    # does check_sig_cached look at the clock before it trusts a cached verdict?
+    pre = list(re.finditer(r"let\s+ts_now\s*=\s*Timestamp::now\(\);\s*if\s+!\(\s*ts_now\s*<=\s*sig\.data\(\)\.expiration\(\)\s*&&\s*ts_now\s*>=\s*sig\.data\(\)\.inception\(\)\s*\)\s*\{\s*return\s+false;\s*\}", cc))
+    if len(pre) > 1 or (pre and pre[0].start() > cc.find("cache.cache.get")):
+        raise GenError("check_sig_cached: time check not recognised")
+    if not pre and ("Timestamp" in cc or "expiration" in cc):
+        raise GenError("check_sig_cached: unrecognised use of signature times")
+    defs.append(("sig_cache_checks_time_first", "bool", "true" if pre else "false"))
+    tfs = fn_body(strip_comments(read("src/dnssec/validator/utilities.rs")), "ttl_for_sig")
+    plain_sub = len(re.findall(r"sig\.data\(\)\.expiration\(\)\.into_int\(\)\s*-\s*Timestamp::now\(\)\.into_int\(\)", tfs))
+    wrap_sub = len(re.findall(r"sig\s*\.data\(\)\s*\.expiration\(\)\s*\.into_int\(\)\s*\.wrapping_sub\(Timestamp::now\(\)\.into_int\(\)\)", tfs))
+    if plain_sub + wrap_sub != 1:
+        raise GenError("ttl_for_sig: subtraction not recognised")
+    defs.append(("ttl_for_sig_wraps", "bool", "true" if wrap_sub else "false"))
 
     # ---- a child's DNSKEY RRset is verified with the key matching a DS (trust anchor: a configured key / DS)
     cn = fn_body(ctx, "create_child_node")
@@ -204,6 +217,16 @@ def build():
     one(r"if\s+sig\.data\(\)\.key_tag\(\)\s*!=\s*key_tag\s*\{\s*continue;\s*\}\s*if\s+dnskeys\s*\.check_sig_cached\(\s*sig,\s*&ta_owner,\s*dnskey,\s*&key_name,\s*key_tag,\s*sig_cache,?\s*\)", ta, "anchor: DNSKEY RRset checked with the anchor key only")
     hk = fn_body(ctx, "has_key")
     one(r"if\s+tkey_dnskey\s*!=\s*key_dnskey\s*\{\s*continue;\s*\}", hk, "has_key compares the key")
+    hd = fn_body(ctx, "has_ds")
+    one(r"find_key_for_ds\(ds,\s*dnskeys\)\s*$", hd, "has_ds is find_key_for_ds")
+    for cond in (r"tkey\.owner\(\)\.to_name::<Bytes>\(\)\s*!=\s*key\.owner\(\)", r"tkey\.class\(\)\s*!=\s*key\.class\(\)", r"tkey\.rtype\(\)\s*!=\s*key\.rtype\(\)"):
+        one(r"if\s+" + cond + r"\s*\{\s*continue;", hk, "has_key condition")
+    # the digest types DnskeyExt::digest can compute are exactly the supported_digest list
+    dgf = fn_body(base, "digest", after="impl<Octets> DnskeyExt for Dnskey<Octets>")
+    arms = re.findall(r"DigestAlgorithm::([A-Z0-9]+)\s*=>\s*DigestBuilder::new", dgf)
+    if arms != eq_list(fn_body(base, "supported_digest"), "DigestAlgorithm", "supported_digest"):
+        raise GenError("DnskeyExt::digest arms %r differ from supported_digest" % arms)
+    one(r"_\s*=>\s*\{\s*return\s+Err\(AlgorithmError::Unsupported\);", dgf, "digest: other types unsupported")
     defs.append(("dnskey_rrset_verified_with_ds_key", "bool", "true"))
 
     # ---- NSEC3 closest-encloser walk: the candidate flag is reset whenever a name is neither matched nor usable
